@@ -424,9 +424,15 @@ def gen_late(seed: int, n: int) -> List[Scn]:
         P = rng.choice([0, 1])
         before = rng.randint(1, 2)
         after = rng.randint(1, 3)
-        msgs: List[Dict[str, Any]] = [{"kind": "unknown", "late": True} for _ in range(before)]
-        msgs += [{"kind": "valid", "task": "ta0", "late": rng.random() < 0.7} for _ in range(after)]
-        cfg = {"A": A, "P": P, "ackable": rng.random() < 0.7, "msgs": msgs}
+        resync = len(out) % 3 == 2
+        if resync:
+            # the name is served by a plain function first (instant), and re-registered as a coroutine while the worker runs
+            msgs: List[Dict[str, Any]] = [{"kind": "valid", "task": "ts0", "late": True, "body": "instant", "outcome": "ret"} for _ in range(before)]
+        else:
+            msgs = [{"kind": "unknown", "late": True} for _ in range(before)]
+        msgs += [{"kind": "valid", "task": "ta0", "late": rng.random() < 0.7 or resync} for _ in range(after)]
+        cfg = {"A": A, "P": P, "ackable": rng.random() < 0.7, "msgs": msgs, "late_sync_first": resync,
+               "ack": rng.choice(["default", "when_executed", "when_saved"])}
         steps: List[Any] = [["arrive", before], ["adv_rel", rng.choice([0, 1, 4])], ["register"], ["arrive", after],
                             ["adv_rel", 1], ["fin_all", rng.choice(["ret", "exc"])], ["adv_rel", 2], ["stop"], ["adv_rel", 5]]
         out.append({"cfg": cfg, "steps": steps, "family": "late_registration"})
